@@ -243,6 +243,20 @@ pub async fn socks_connect_opts(front: SocketAddr, atyp: u8, addr: &[u8], port: 
     Ok(s)
 }
 
+/// read an HTTP reply head byte by byte up to and including its blank line (nothing behind it is consumed)
+pub async fn read_http_head(s: &mut TcpStream, guard: Duration) -> Vec<u8> {
+    let mut out = vec![];
+    let deadline = tokio::time::Instant::now() + guard;
+    let mut b = [0u8; 1];
+    while !out.ends_with(b"\r\n\r\n") && out.len() < 4096 {
+        match tokio::time::timeout_at(deadline, s.read(&mut b)).await {
+            Ok(Ok(1)) => out.push(b[0]),
+            _ => break,
+        }
+    }
+    out
+}
+
 /// read until `n` bytes arrived, EOF, or the guard
 pub async fn read_n(s: &mut TcpStream, n: usize, guard: Duration) -> (Vec<u8>, bool) {
     let mut out = vec![];
